@@ -34,12 +34,13 @@ let join sep l = if l = [] then "-" else String.concat sep l
 let fr = 10000
 
 (* ---- mirror of the configuration built by the ops ---- *)
-type mworker = { id : int; res : n list; mutable free : n list; mutable assigned : int list }
+type mworker = { id : int; res : n list; mutable free : n list; mutable assigned : int list; tl : int option; mutable blk : (int * int) list }
 
 type world = {
   mutable n_res : int;
   mutable workers : mworker list;
-  mutable classes : (n * n) list list;          (* index = rq id *)
+  mutable classes : (n * n) list list;          (* index = rq id; variant 0 *)
+  mutable vclasses : variant list list;         (* all variants with their min_time *)
   mutable queues : queue list;                  (* index = rq id *)
   mutable tasks : (int * (int * int)) list;     (* task -> (rq, user prio) *)
   mutable decided : bool;
@@ -52,7 +53,7 @@ type world = {
   mutable solved_ok : bool;
 }
 
-let new_world () = { n_res = 1; workers = []; classes = []; queues = []; tasks = []; decided = false; inst = None;
+let new_world () = { n_res = 1; workers = []; classes = []; vclasses = []; queues = []; tasks = []; decided = false; inst = None;
                      batches = []; milp = []; vars = []; solution = None; optimal = false; solved_ok = false }
 
 let rec set_nth l i x = match l with [] -> [] | h :: t -> if i = 0 then x :: t else h :: set_nth t (i - 1) x
@@ -94,7 +95,7 @@ let process_trace header lines =
         (* WorkerResources::from_description: vector length = highest present resource index + 1 *)
         let rec trim l = match List.rev l with 0 :: r -> trim (List.rev r) | _ -> l in
         let v = List.map (fun u -> n_of_int (u * fr)) (trim us) in
-        w.workers <- w.workers @ [ { id = ios id; res = v; free = v; assigned = [] } ]
+        w.workers <- w.workers @ [ { id = ios id; res = v; free = v; assigned = []; tl = None; blk = [] } ]
     | "ADDRQ" :: es :: _ ->
         let entries = List.map (fun e -> match String.split_on_char ':' e with
             | [ r; a ] -> (n_of_int (ios r), n_of_int (ios a)) | _ -> failwith "bad entry") (split_on ',' es) in
@@ -102,9 +103,80 @@ let process_trace header lines =
         let k = idx 0 w.classes in
         let id = if k >= 0 then k else begin
             w.classes <- w.classes @ [ entries ];
+            w.vclasses <- w.vclasses @ [ [ { v_entries = entries; v_min_time = N0 } ] ];
             w.queues <- w.queues @ [ empty_queue ];
             List.length w.classes - 1 end in
         pr (Printf.sprintf "= RQ %d" id)
+    | "ADDWT" :: id :: tl :: units ->
+        let us = List.map ios units in
+        let rec trim l = match List.rev l with 0 :: r -> trim (List.rev r) | _ -> l in
+        let v = List.map (fun u -> n_of_int (u * fr)) (trim us) in
+        w.workers <- w.workers @ [ { id = ios id; res = v; free = v; assigned = []; tl = (if tl = "-" then None else Some (ios tl)); blk = [] } ]
+    | "ADDRQV" :: vs :: _ ->
+        let variants = List.map (fun v -> match String.split_on_char '@' v with
+            | [ es; tm ] ->
+                { v_entries = List.map (fun e -> match String.split_on_char ':' e with
+                      | [ r; a ] -> (n_of_int (ios r), n_of_int (ios a)) | _ -> failwith "bad entry") (split_on ',' es);
+                  v_min_time = n_of_int (ios tm) }
+            | _ -> failwith "bad variant") (String.split_on_char '|' vs) in
+        let rec idx i = function [] -> -1 | x :: t -> if x = variants then i else idx (i + 1) t in
+        let k = idx 0 w.vclasses in
+        let id = if k >= 0 then k else begin
+            w.vclasses <- w.vclasses @ [ variants ];
+            w.classes <- w.classes @ [ (List.hd variants).v_entries ];
+            w.queues <- w.queues @ [ empty_queue ];
+            List.length w.vclasses - 1 end in
+        pr (Printf.sprintf "= RQ %d" id)
+    | "BLOCK" :: wk :: rq :: v :: _ ->
+        let m = List.find (fun m -> m.id = ios wk) w.workers in
+        m.blk <- (ios rq, ios v) :: m.blk
+    | "VDECIDE" :: rest ->
+        let kv = List.map (fun s -> match String.index_opt s '=' with
+            | Some k -> (String.sub s 0 k, String.sub s (k + 1) (String.length s - k - 1)) | None -> (s, "")) rest in
+        let get k = try List.assoc k kv with Not_found -> "" in
+        let assigned = List.map (fun e -> match String.split_on_char ':' e with
+            | [ wk; t; v ] -> (ios wk, ios t, ios v) | _ -> failwith "bad assigned") (split_on ',' (get "assigned")) in
+        let ws = List.sort (fun a b -> compare a.id b.id) w.workers in
+        List.iter (fun m -> pr (Printf.sprintf "= PRE %d free=%s" m.id
+                                  (join "," (List.init w.n_res (fun r -> string_of_n (rv_get m.free (n_of_int r))))))) ws;
+        let all_ok = ref true in
+        let posts = List.map (fun m ->
+            let vw = { vw_id = n_of_int m.id; vw_free = m.free;
+                       vw_term = (match m.tl with Some t -> Some (n_of_int t) | None -> None);
+                       vw_blocked = List.map (fun (a, b) -> (n_of_int a, n_of_int b)) m.blk } in
+            let ps = List.filter_map (fun (wk, t, v) ->
+                if wk = m.id then (let rq, _ = List.assoc t w.tasks in Some (t, rq, v)) else None) assigned in
+            List.iter (fun (t, rq, v) ->
+                List.iter (fun e ->
+                    all_ok := false;
+                    let cls = match e with VNoVariant -> "no-such-variant" | VBlocked -> "placed-on-blocked-variant"
+                                          | VNoTime -> "placed-without-remaining-time" | VNoResources -> "placed-without-free-resources" in
+                    monitors := Printf.sprintf "M C05 FAIL %s task=%d rq=%d variant=%d worker=%d" cls t rq v m.id :: !monitors)
+                  (vplace_errors N0 w.vclasses vw (n_of_int rq) (n_of_int v))) ps;
+            (m, vfree_after w.vclasses m.free (List.map (fun (_, rq, v) -> (n_of_int rq, n_of_int v)) ps))) ws in
+        pr (if !all_ok then "= PLACEMENTS ok" else "= PLACEMENTS bad");
+        List.iter (fun (m, post) -> match post with
+            | Some v -> pr (Printf.sprintf "= POST %d free=%s" m.id (join "," (List.init w.n_res (fun r -> string_of_n (rv_get v (n_of_int r))))))
+            | None -> pr (Printf.sprintf "= POST %d OVERBOOKED" m.id);
+                monitors := Printf.sprintf "M C05 FAIL overbooked worker=%d" m.id :: !monitors) posts;
+        tag "variants";
+        if assigned <> [] then tag "dispatch";
+        if List.exists (fun (_, _, v) -> v > 0) assigned then tag "variants-nonfirst-placed";
+        (* how often the interesting window occurs: a worker whose remaining lifetime lies between the
+           min_times of two variants of a class, and the quick variant does not fit its free resources *)
+        List.iter (fun m -> match m.tl with
+            | None -> ()
+            | Some tl ->
+                List.iter (fun vs ->
+                    let times = List.map (fun v -> int_of_n v.v_min_time) vs in
+                    if List.exists (fun t -> t <= tl) times && List.exists (fun t -> t > tl) times then begin
+                      tag "variants-time-window";
+                      let quick_fit = List.exists (fun v -> int_of_n v.v_min_time <= tl && capable_res m.free v.v_entries) vs in
+                      let slow_fit = List.exists (fun v -> int_of_n v.v_min_time > tl && capable_res m.free v.v_entries) vs in
+                      if (not quick_fit) && slow_fit then tag "variants-window-quick-unfit-slow-fits"
+                    end) w.vclasses) w.workers;
+        if List.exists (fun m -> m.blk <> []) w.workers then tag "variants-blocked";
+        if get "optimal" = "1" && assigned <> [] then tag "nontrivial"
     | "ADDT" :: t :: rq :: p :: _ ->
         let t = ios t and rq = ios rq and p = ios p in
         w.tasks <- (t, (rq, p)) :: w.tasks;
